@@ -476,7 +476,7 @@ func (w *writeCapture) Write(p []byte) (int, error) {
 func (w *writeCapture) Close() error { return nil }
 
 func (e *engine) runC08() {
-	e.rep.Rule = "packet streams: 0–40 packets (sizes 1..max incl. max) framed by the real writers, re-chunked 4 ways; corrupted prefixes (zero, over-limit) at a random packet; truncation; small reader buffers; distinct = distinct op line"
+	e.rep.Rule = "packet streams: 0–40 packets (sizes 1..max incl. max) framed by the real writers, re-chunked 4 ways; corrupted prefixes (zero, over-limit) at a random packet; truncation; small reader buffers; writer side: 3–7 goroutines × 1–12 tagged packets through the real WriteTo (stream that holds the caller's slice over a scheduling point and copies late) and the real SendMsg (stream without atomic writes), single-P forced schedules and free-running, wire read back through the real reader; one underlying Write taking full / n-1 / 0 / header only / random part / failing; distinct = distinct op line"
 	e.rep.Require("pkt.end.eof", "pkt.end.ueof", "pkt.end.zero", "pkt.end.large", "sess.end.eof", "sess.end.ueof", "sess.end.large", "frame")
 	n := 100 * e.a.Scale
 	for i := 0; i < n; i++ {
@@ -658,7 +658,7 @@ func (e *engine) runC08() {
 // ---- C09 ----
 
 func (e *engine) runC09() {
-	e.rep.Rule = "buffered conn: random chunk streams (chunk sizes 1..6000, crossing the 2048 pump buffer) read with buffer sizes 0..4096; distinct = distinct op line"
+	e.rep.Rule = "buffered conn: random chunk streams (chunk sizes 1..6000, crossing the 2048 pump buffer) read with buffer sizes 0..4096; Conn.Write of 0..7000 bytes against writers taking 1 / 7 / 2047 / 2048 / 2049 / mixed / 0 bytes per call, failing at a random call in a third of the cases; streams ending with io.EOF or a custom error value, alone or in the same Read as the last chunk (chunks up to 5 KiB, empty chunks), read to the end and 3–5 reads beyond; distinct = distinct op line"
 	e.rep.Require("conn.short", "conn.noshort", "conn.split")
 	n := 150 * e.a.Scale
 	for i := 0; i < n; i++ {
@@ -840,9 +840,12 @@ func main() {
 		e.runC07()
 	case "C08":
 		e.runC08()
+		e.runC08Writers()
 	case "C09":
 		e.runC09()
 		e.runC09Burst()
+		e.runC09Write()
+		e.runC09End()
 	default:
 		fmt.Println("unknown property", a.Prop)
 		return
